@@ -39,8 +39,8 @@ def rhs_total(g, sym):
 def counts(m, n, opt, mk, v, h, nf, r, sp=False, two=False, **kw):
     g, lex = {}, {}
     roots = ("R", "R2") if r else ("R",)
-    POS = ["P"] * n if sp else ["P", "P", "Q", "P", "Q", "P"][:n]
-    WORDS = ["a", "b", "a", "b", "a", "b"][:n]
+    POS = ["P"] * n if sp else ["P", "P", "Q", "P", "Q", "P", "Q", "P"][:n]
+    WORDS = ["a", "b", "a", "b", "a", "b", "a", "b"][:n]
     if two:
         # two different symbolic trees over the same labels: the same rule can occur under vertical contexts that
         # differ only in the fan-out of an ancestor
